@@ -22,7 +22,7 @@ using namespace sim;
 namespace simnet {
 
 static FdTable rootTable;
-static FdTable* activeTable = &rootTable;
+static FdTable* taskTable[80];   // per task descriptor table (simulated child processes have their own); null = the process' root table
 static int nextSockFd = 100000, nextFileId = 1;
 static size_t defaultCap = 65536;
 static std::vector<int> netWaiters;
@@ -38,15 +38,15 @@ static void callFailHook(int fd, bool isSend, int err);
 
 static void resetNet() {
   for (File* f : allFiles) delete f;
-  allFiles.clear(); rootTable.m.clear(); activeTable = &rootTable; nextSockFd = 100000; nextFileId = 1; defaultCap = 65536; netWaiters.clear(); sendHook = 0; failHook = 0;
+  allFiles.clear(); rootTable.m.clear(); memset(taskTable, 0, sizeof taskTable); nextSockFd = 100000; nextFileId = 1; defaultCap = 65536; netWaiters.clear(); sendHook = 0; failHook = 0;
   listeners.clear(); nextPort = 40000; timers.clear(); timerSeq = 0; dnsDelayMs = 5;
 }
 static struct Reg { Reg() { addResetHook(resetNet); } } reg;
 
-FdTable& curTable() { return *activeTable; }
-void setActiveTable(FdTable* t) { activeTable = t ? t : &rootTable; }
+FdTable& curTable() { int t = self(); return (t >= 0 && t < 80 && taskTable[t]) ? *taskTable[t] : rootTable; }
+void setTaskTable(int task, FdTable* t) { if (task >= 0 && task < 80) taskTable[task] = t; }
 FdTable& rootFdTable() { return rootTable; }
-File* lookup(int fd) { auto it = activeTable->m.find(fd); return it == activeTable->m.end() ? nullptr : it->second; }
+File* lookup(int fd) { FdTable& t = curTable(); auto it = t.m.find(fd); return it == t.m.end() ? nullptr : it->second; }
 bool isSimFd(int fd) { return inRun() && lookup(fd) != nullptr; }
 File* newFile(FileKind k) {
   File* f = new File(); f->kind = k; f->refs = 0; f->id = nextFileId++; f->nonblock = false; f->unixDomain = false; f->capacity = defaultCap; f->peer = 0; f->peerClosed = false;
@@ -206,10 +206,11 @@ ssize_t fileRead(int fd, File* f, void* buf, size_t n) {
   errno = EBADF; return -1;
 }
 int fileClose(int fd) {
-  auto it = activeTable->m.find(fd);
-  if (it == activeTable->m.end()) { errno = EBADF; return -1; }
+  FdTable& tb = curTable();
+  auto it = tb.m.find(fd);
+  if (it == tb.m.end()) { errno = EBADF; return -1; }
   chargeCall(); yieldSync();
-  File* f = it->second; activeTable->m.erase(it);
+  File* f = it->second; tb.m.erase(it);
   // like the kernel: closing a descriptor removes it from every epoll interest list
   for (File* e : allFiles) if (e->kind == FK_EPOLL && e->refs > 0) e->interest.erase(fd);
   logEvent("close", f->id);
@@ -299,15 +300,15 @@ ssize_t __wrap_recv(int fd, void* buf, size_t n, int flags) {
   HostG h; return fileRead(fd, f, buf, n);
 }
 ssize_t __wrap_write(int fd, const void* buf, size_t n) {
-  File* f = inTask() ? lookup(fd) : 0; if (!f) { if (simfs::active() && simfs::isFileFd(fd)) return simfs::fsWrite(fd, buf, n); return write(fd, buf, n); }
+  File* f = inTask() ? lookup(fd) : 0; if (!f) { if (inTask() && &curTable() != &rootTable) { errno = EBADF; return -1; } /* a simulated child never touches the worker's real descriptors */ if (simfs::active() && simfs::isFileFd(fd)) return simfs::fsWrite(fd, buf, n); return write(fd, buf, n); }
   HostG h; return fileWrite(fd, f, buf, n);
 }
 ssize_t __wrap_read(int fd, void* buf, size_t n) {
-  File* f = inTask() ? lookup(fd) : 0; if (!f) { if (simfs::active() && simfs::isFileFd(fd)) return simfs::fsRead(fd, buf, n); return read(fd, buf, n); }
+  File* f = inTask() ? lookup(fd) : 0; if (!f) { if (inTask() && &curTable() != &rootTable) { errno = EBADF; return -1; } if (simfs::active() && simfs::isFileFd(fd)) return simfs::fsRead(fd, buf, n); return read(fd, buf, n); }
   HostG h; return fileRead(fd, f, buf, n);
 }
 int __wrap_close(int fd) {
-  if (!inTask() || !lookup(fd)) { if (simfs::isFileFd(fd)) return simfs::fsClose(fd); return close(fd); }
+  if (!inTask() || !lookup(fd)) { if (inTask() && &curTable() != &rootTable) { errno = EBADF; return -1; } if (simfs::isFileFd(fd)) return simfs::fsClose(fd); return close(fd); }
   HostG h; return fileClose(fd);
 }
 int __wrap_fcntl(int fd, int cmd, ...) {
